@@ -43,6 +43,16 @@ def do_import(pid, i, round2=False, rnd=None):
     demos = []
     for f in sorted(glob.glob(os.path.join(src, "m%s[-_.]*" % i)) + glob.glob(os.path.join(src, "m%s[a-z]*" % i))):
         b = os.path.basename(f)
+        if os.path.isdir(f):
+            for root, _, fs in os.walk(f):
+                for x in fs:
+                    dst = os.path.join(d, "libs", os.path.relpath(os.path.join(root, x), f))
+                    os.makedirs(os.path.dirname(dst), exist_ok=True)
+                    shutil.copy(os.path.join(root, x), dst)
+                    if x.endswith(".scm") and root == f and x.startswith("m"):
+                        shutil.copy(os.path.join(root, x), os.path.join(d, x))
+                        demos.append(x)
+            continue
         if b.endswith((".patch", ".md")) or os.path.getsize(f) > 300000:
             continue
         shutil.copy(f, os.path.join(d, b))
@@ -89,6 +99,13 @@ def build_and_test(src, run_tests=True):
 def run_demos(src, d, demos):
     out = {}
     for f in demos:
+        if f.endswith(".c"):
+            exe = os.path.join(src, "_build", "demo-" + f[:-2])
+            r = sh("cd %s && cc -O1 -g -I include -I _build/include %s -L _build -lchibi-scheme -lpthread -o %s 2>&1 | tail -5" % (src, os.path.join(d, f), exe))
+            arg = "seq" if "seq" in open(os.path.join(d, f)).read() else ""
+            r2 = sh("cd %s && CHIBI_MODULE_PATH=_build/lib:lib LD_LIBRARY_PATH=_build timeout 300 %s %s 2>&1 | sed -E 's/[0-9]{9,}/N/g' | tail -40 | cut -c1-300; echo \"exit=${PIPESTATUS[0]}\"" % (src, exe, arg), executable="/bin/bash")
+            out["%s (C embedding program%s)" % (f, ", argument seq" if arg else "")] = r.stdout + r2.stdout
+            continue
         if not f.endswith(".scm"):
             continue
         p = os.path.join(d, f)
